@@ -23,11 +23,16 @@ NormDir(o) == [n \in DOMAIN o |-> [child |-> [id |-> o[n].child.id, type |-> o[n
 NormD(o) == [d \in DOMAIN o |-> NormDir(o[d])]
 NormChild(c) == [id |-> c.id, type |-> c.type, w |-> c.w]
 
+\* A burst = calls requested back to back on one client (behind a listing that is still in flight) before the grid runs: they take
+\* effect in request order.  Only the last call of a burst carries a listing; for the others (burst = "mid") the answer is judged
+\* and the Spec's own state is carried forward.
+Mid(e) == "burst" \in DOMAIN e /\ e.burst = "mid"
 Verdict(e) ==
   LET obs == NormD(e.obs)
       r   == Apply(S, e, e.now)
       pc  == C20_FirstFailing(S, obs, e, e.st, e.now)
-  IN IF pc # "" THEN pc
+  IN IF Mid(e) THEN (IF e.st # r.st THEN "C20_outcome_in_burst" ELSE IF NormChild(e.out) # r.out THEN "C20_returned_node_in_burst" ELSE "")
+     ELSE IF pc # "" THEN pc
      ELSE IF e.st # r.st THEN "C20_outcome"
      ELSE IF NormChild(e.out) # r.out THEN "C20_returned_node"
      ELSE IF obs # r.D THEN "C20_map_refinement"
@@ -44,7 +49,7 @@ TraceNext ==
   /\ l <= Len(Events)
   /\ LET c == Verdict(Ev) IN
      IF c = ""
-       THEN /\ S' = NormD(Ev.obs) /\ l' = l + 1 /\ bad' = "none"
+       THEN /\ S' = (IF Mid(Ev) THEN Apply(S, Ev, Ev.now).D ELSE NormD(Ev.obs)) /\ l' = l + 1 /\ bad' = "none"
             /\ (l = Len(Events) => PrintT(<<"VF_ACCEPT", tid, l>>))
        ELSE /\ bad' = c /\ UNCHANGED <<S, l>>
             /\ PrintT(<<"VF_REJECT", tid, l, c>>)
